@@ -48,7 +48,7 @@ void harness_case(Dec &d, Case &c) {
         seenReqId = ri.reqId;
         BuildOpts o; o.fixedDoc = true; o.doc = sc.doc; o.wantRfc = 0; o.wantCal = d.pick(6) != 0; o.wantPub = 0; o.wantAuth = d.pick(4) != 0; o.maxChains = 4; o.fixedTime = true; o.t = 1500000000 + d.pick(100000000);
         o.firstCorr = (int)sc.level + (int)d.pick(3); if (sc.level > 100) o.maxChains = 2;
-        model = buildConsistent(ch, o); modelBuilt = true; Sig out = model; uint64_t rid = ri.reqId; bool hasStatus = d.flag(); uint64_t status = 0; Header h; h.login = "srv"; int ver = sc.version; Bytes key = sc.key; int macAlg = sc.macAlg; bool withMac = true, withHeader = true;
+        model = buildConsistent(ch, o); modelBuilt = true; if (model.chains.size() >= 2 && d.flag()) { /* chains may be written in any order, e.g. top chain first */ for (size_t i = model.chains.size(); i > 0; i--) model.order.push_back(i - 1); if (model.chains.size() >= 3 && d.flag()) std::swap(model.order[0], model.order[1]); c.cls("reply:chains-not-lowest-first"); } Sig out = model; uint64_t rid = ri.reqId; bool hasStatus = d.flag(); uint64_t status = 0; Header h; h.login = "srv"; int ver = sc.version; Bytes key = sc.key; int macAlg = sc.macAlg; bool withMac = true, withHeader = true;
         switch (sc.dev) {
         case D_FOREIGN_ID: rid = ri.reqId + 1 + d.pick(5); break; case D_STALE_ID: rid = ri.reqId ? ri.reqId - 1 : 77; break;
         case D_OTHER_HASH: { BuildOpts o2 = o; o2.doc = sc.doc; o2.doc[1 + d.pick((uint32_t)o2.doc.size() - 1)] ^= 1; out = buildConsistent(ch, o2); break; }
